@@ -327,7 +327,7 @@ fn est_case(job: &Job, t: bool, seed: u64) {
             27 => a.tr().mul(&a).zip(&model::M::new(3, 3, |i, j| if i == j { 1.0 } else { 0.0 }), |p, q| p + q),
             _ => a,
         };
-        est::Data { x, y: vec![0.0; 3], q: model::M::new(1, 3, |_, _| 0.0) }
+        est::Data { x, y: vec![0.0; 3], q: model::M::new(1, 3, |_, _| 0.0), label: String::new() }
     } else {
         // n rows from the 6-point lattice (first row fixed by the job), targets from the pattern list
         let n = if t { 5 } else { 4 };
@@ -348,7 +348,7 @@ fn est_case(job: &Job, t: bool, seed: u64) {
         };
         // integer-valued (count / category) inputs are not scaled
         let sc = if matches!(e, 6 | 7 | 8 | 18) { 1.0 } else { scale };
-        est::Data { x: model::M::new(n, 2, |i, j| if j == 0 { rows[i].0 * sc } else { rows[i].1 * sc }), y, q: model::M::new(9, 2, |i, j| (if j == 0 { i / 3 } else { i % 3 }) as f64 * sc) }
+        est::Data { x: model::M::new(n, 2, |i, j| if j == 0 { rows[i].0 * sc } else { rows[i].1 * sc }), y, q: model::M::new(9, 2, |i, j| (if j == 0 { i / 3 } else { i % 3 }) as f64 * sc), label: String::new() }
     };
     // the quick tier runs the (slow, iterative) logistic regression with one regularisation only
     let cfg = mc::choose(if !t && e == 4 { 1 } else { ncfg });
@@ -376,7 +376,8 @@ fn long_est_case(job: &Job, t: bool, seed: u64) {
     let x = model::M::new(4, n, |i, j| long::pattern(rows[i], n, j) * scale);
     let cfg = mc::choose(ncfg);
     let lx = mc::choose(2);
-    est::run_case(&job.name, e, cfg, &est::Data { x, y, q: long::queries(n, npat, scale) }, lx);
+    let label = format!("4x{} with rows = patterns {:?} of long::pattern times {} (queries: the {} patterns, zero, ones, unit vectors 0, {}, {})", n, rows, scale, npat, n / 2, n - 1);
+    est::run_case(&job.name, e, cfg, &est::Data { x, y, q: long::queries(n, npat, scale), label }, lx);
 }
 
 fn main() {
